@@ -15,7 +15,7 @@ PLAN = {
                 gen_q=("continue,waves,storm,wait,rebudget", 90), gen_t=("continue,waves,storm,wait,rebudget", 2600)),
     "C08": dict(mc_q=[("gated", 3, 2, 1, True), ("conc", 2, 2, 2, False)],
                 mc_t=[("gated", 4, 3, 1, True), ("conc", 3, 2, 2, False), ("conc", 3, 3, 1, False)],
-                gen_q=("barrier,continue,rerun,backoff", 70), gen_t=("barrier,continue,stop,rerun,backoff", 1200)),
+                gen_q=("barrier,continue,rerun,backoff,storm", 60), gen_t=("barrier,continue,stop,rerun,backoff,storm", 1000)),
     "C09": dict(mc_q=[("seq", 3, 1, 2, True), ("gated", 3, 2, 2, True), ("gatedcancel", 2, 2, 1, True), ("conc", 2, 2, 2, False)],
                 mc_t=[("seq", 4, 1, 2, True), ("gated", 4, 3, 1, True), ("gated", 3, 2, 2, True), ("gatedcancel", 3, 2, 2, True), ("conc", 3, 2, 2, False)],
                 gen_q=("stop,cancel,bigstop", 100), gen_t=("stop,cancel,bigstop", 2500)),
